@@ -89,18 +89,19 @@ pub fn run(ctx: &mut Ctx, o: &AttackOpts) {
         claims["sub"] = json!("subject");
         claims["addr"] = json!({"street": "s", "city": {"name": "c", "zip": 7}});
         claims["nat"] = json!(["DE", ["FR", null, "IT"], {"x": 1}, null, false, 0, ""]);
+        claims["grid"] = json!([[1, 2], [3, [4, 5]], []]);
         // every node disclosable, or only nodes INSIDE containers that stay visible (inner array elements, nested members)
         let strat = if base % 3 == 2 {
             let p = |raw: &str, tok: &[&str]| PathSpec { raw: raw.to_string(), tok: tok.iter().map(|s| s.to_string()).collect(), malformed: false };
             StratSpec { kind: "custom", paths: vec![p("$.nat[1][0]", &["nat", "[1]", "[0]"]), p("$.nat.[1].[1]", &["nat", "[1]", "[1]"]), p("$.nat[2].x", &["nat", "[2]", "x"]), p("$.nat[3]", &["nat", "[3]"]),
-                                                    p("$.addr.city.name", &["addr", "city", "name"]), p("$.addr.street", &["addr", "street"]), p("$.sub", &["sub"])] }
+                                                    p("$.grid[1][0]", &["grid", "[1]", "[0]"]), p("$.grid[1][1][1]", &["grid", "[1]", "[1]", "[1]"]), p("$.addr.city.name", &["addr", "city", "name"]), p("$.addr.street", &["addr", "street"]), p("$.sub", &["sub"])] }
         } else {
             StratSpec::simple("all")
         };
         let mut issuer = new_issuer(key, alg);
         let Some(issued) = issue(ctx, &mut issuer, &IssueArgs { inst: "I1", key, alg, claims: &claims, strat: &strat, hk: Some(hk), decoy: base % 4 < 2, fmt }).ok() else { continue };
         let Some(mut holder) = holder_new(ctx, "P1", &issued, fmt).ok() else { continue };
-        let sel = match json!({"addr": {"street": true, "city": {"name": true}}, "nat": [true, [true, true, false], {"x": true}, true, false, true], "sub": true}) {
+        let sel = match json!({"addr": {"street": true, "city": {"name": true}}, "nat": [true, [true, true, false], {"x": true}, true, false, true], "grid": [true, [true, [false, true]]], "sub": true}) {
             Value::Object(m) => m,
             _ => unreachable!(),
         };
@@ -266,6 +267,11 @@ pub fn run(ctx: &mut Ctx, o: &AttackOpts) {
                 m2.kb = None;
                 m2.discs.push(junk.to_string());
                 go(ctx, &m2, false);
+                // ... and in the middle of the list (what comes after it must not be lost)
+                let mut m3 = full.clone();
+                m3.kb = None;
+                m3.discs.insert(m3.discs.len() / 2, junk.to_string());
+                go(ctx, &m3, false);
             }
         }
     }
